@@ -66,6 +66,19 @@ impl<'t> World<'t> {
                     }
                 };
                 self.log(format!("#{} c{} is_empty {} -> {}", self.step_idx, ci, show(e), got));
+                if self.on(Prop::C07) {
+                    if let Some((mut fm, fe)) = fresh_copy(e) {
+                        if let Ok(fgot) = guarded(|| fm.is_empty_re(fe)) {
+                            self.eval(Prop::C07, "c07.same-answer-on-fresh-manager", fp(&info.dfa), 1, nontrivial(&info.dfa));
+                            self.judge(Prop::C07, "c07.same-answer-on-fresh-manager", fgot == got, || {
+                                format!(
+                                    "is_empty_re({}) = {} on the manager with history, but {} when the same term is rebuilt on a fresh manager",
+                                    show(e), got, fgot
+                                )
+                            })?;
+                        }
+                    }
+                }
                 if self.on(Prop::C05) {
                     if let Some(d) = &info.dfa {
                         self.eval(Prop::C05, "c05.emptiness-exact", d.fingerprint(), 1, !d.is_full_lang());
@@ -105,6 +118,20 @@ impl<'t> World<'t> {
                 };
                 let txt: Option<Vec<u32>> = got.as_ref().map(|s| s.as_ref().to_vec());
                 self.log(format!("#{} c{} get_string {} -> {:x?}", self.step_idx, ci, show(e), txt));
+                if self.on(Prop::C07) {
+                    if let Some((mut fm, fe)) = fresh_copy(e) {
+                        if let Ok(fgot) = guarded(|| fm.get_string(fe).is_some()) {
+                            self.eval(Prop::C07, "c07.same-answer-on-fresh-manager", fp(&info.dfa), 3, nontrivial(&info.dfa));
+                            let g = got.is_some();
+                            self.judge(Prop::C07, "c07.same-answer-on-fresh-manager", fgot == g, || {
+                                format!(
+                                    "get_string({}) is_some = {} on the manager with history, but {} when the same term is rebuilt on a fresh manager",
+                                    show(e), g, fgot
+                                )
+                            })?;
+                        }
+                    }
+                }
                 if self.on(Prop::C05) {
                     let expect_empty = match &info.dfa {
                         Some(d) => Some(d.is_empty_lang()),
@@ -171,6 +198,19 @@ impl<'t> World<'t> {
                     }
                 };
                 self.log(format!("#{} c{} start_char {} {:x} -> {}", self.step_idx, ci, show(e), c, got));
+                if self.on(Prop::C07) {
+                    if let Some((mut fm, fe)) = fresh_copy(e) {
+                        if let Ok(fgot) = guarded(|| fm.start_char(fe, c)) {
+                            self.eval(Prop::C07, "c07.same-answer-on-fresh-manager", fp(&info.dfa), 2 + c as u64, nontrivial(&info.dfa));
+                            self.judge(Prop::C07, "c07.same-answer-on-fresh-manager", fgot == got, || {
+                                format!(
+                                    "start_char({}, {:x}) = {} on the manager with history, but {} when the same term is rebuilt on a fresh manager",
+                                    show(e), c, got, fgot
+                                )
+                            })?;
+                        }
+                    }
+                }
                 if self.on(Prop::C18) {
                     if let Some(d) = &info.dfa {
                         let cell = self.alpha.cell_of(c);
@@ -376,7 +416,13 @@ impl<'t> World<'t> {
         // the explicit string, then strings steered by the reference DFA
         let mut tests: Vec<Vec<u32>> = Vec::new();
         tests.push(st.s.iter().map(|&c| self.alpha.point(c % BAD_BASE)).collect());
-        if self.on(Prop::C01) {
+        // C07: the same term rebuilt on a manager without history must give the same answers
+        let mut fresh = if self.on(Prop::C07) && !info.big && info.cost <= COST_CAP {
+            fresh_copy(e)
+        } else {
+            None
+        };
+        if self.on(Prop::C01) || self.on(Prop::C07) {
             if let Some(d) = &info.dfa {
                 let mut cellstrs: Vec<Vec<u8>> = Vec::new();
                 if let Some(w) = d.shortest_accepted() {
@@ -445,6 +491,20 @@ impl<'t> World<'t> {
             if ti == 0 {
                 first = Some(got);
                 self.log(format!("#{} c{} str_in_re {:x?} {} -> {}", self.step_idx, ci, w, show(e), got));
+            }
+            if let Some((fm, fe)) = fresh.as_mut() {
+                let fe = *fe;
+                let s2 = smt_str(w);
+                if let Ok(fgot) = guarded(|| fm.str_in_re(&s2, fe)) {
+                    self.eval(Prop::C07, "c07.same-answer-on-fresh-manager", fp(&info.dfa), w.len() as u64, nontrivial(&info.dfa));
+                    let wt = self.show_str(w);
+                    self.judge(Prop::C07, "c07.same-answer-on-fresh-manager", fgot == got, || {
+                        format!(
+                            "str_in_re({}, {}) = {} on the manager with history, but {} when the same term is rebuilt on a fresh manager",
+                            wt, show(e), got, fgot
+                        )
+                    })?;
+                }
             }
             if self.on(Prop::C01) {
                 let cells = self.alpha.to_cells(w);
@@ -1201,6 +1261,102 @@ impl<'t> World<'t> {
                             format!("iter_derivatives({}) panicked: {}", show(e), msg)
                         })
                     }
+                }
+                self.push_obs(ci, st.op.name(), Obs::Nothing);
+                Ok(())
+            }
+            TrapCall => {
+                // F1d: a caller error that only surfaces in the middle of a search over the
+                // derivative graph. T1 = ((s1 . A) & Sigma+) . A^[MAX,MAX] (A a single character) is
+                // built without complaint; deriving it by s1 makes the library concatenate A with
+                // A^MAX, whose loop counter overflows (a documented panic); every other character leads
+                // to the empty language, so the graph is tiny and *any* exploration order reaches the
+                // panic. T = p . T1 + s3 . B puts the trap one step away from the root, next to the
+                // derivative graph of an ordinary handle B.
+                let hi = self.handle(ci, st.a[0]);
+                let b = self.clients[ci].pool[hi].re;
+                let binfo = self.info(mi, b);
+                let s1 = self.alpha.single(st.a[2] % BAD_BASE);
+                let s3 = self.alpha.single((st.a[2] % BAD_BASE).wrapping_add(1));
+                let pch = self.alpha.single((st.a[2] % BAD_BASE).wrapping_add(2));
+                if binfo.alien || s3 == pch {
+                    self.push_obs(ci, st.op.name(), Obs::Nothing);
+                    return Ok(());
+                }
+                let with_b = !binfo.big && binfo.cost <= COST_CAP && self.searchable(mi, b);
+                let variant = st.a[1] % 8;
+                let before = self.mgrs[mi].m.stats();
+                let ms = &mut self.mgrs[mi];
+                let r = guarded(|| {
+                    ms.m.with(|m| {
+                        use aws_smt_strings::loop_ranges::LoopRange;
+                        let a = m.char(s3);
+                        let c1 = m.char(s1);
+                        let left = m.concat(c1, a);
+                        let sp = m.sigma_plus();
+                        let guard = m.inter(left, sp);
+                        let big = m.mk_loop(a, LoopRange::point(u32::MAX));
+                        let t1 = m.concat(guard, big);
+                        let p = m.char(pch);
+                        let mut t = m.concat(p, t1);
+                        if with_b {
+                            let c3 = m.char(s3);
+                            let side = m.concat(c3, b);
+                            t = m.union(t, side);
+                        }
+                        let w = smt_str(&[pch, s1, s3]);
+                        match variant {
+                            0 => {
+                                m.compile(t);
+                            }
+                            1 => {
+                                m.try_compile(t, 1000);
+                            }
+                            2 => {
+                                m.is_empty_re(t);
+                            }
+                            3 => {
+                                let ct = m.complement(t);
+                                let x = m.inter(t, ct);
+                                let _ = x;
+                                m.get_string(t1);
+                            }
+                            4 => {
+                                m.str_in_re(&w, t);
+                            }
+                            5 => {
+                                let n = m.iter_derivatives(t).take(2000).count();
+                                let _ = n;
+                            }
+                            6 => {
+                                let ct = m.complement(t);
+                                m.start_char(ct, pch);
+                            }
+                            _ => {
+                                m.str_derivative(t, &w);
+                            }
+                        }
+                    })
+                });
+                let after = self.mgrs[mi].m.stats();
+                if r.is_err() {
+                    self.bump("fault.F1d_panic_in_the_middle_of_a_search");
+                    if after.2 > before.2 {
+                        self.bump("probe.mid_search_panic_left_cache_entries");
+                    }
+                } else {
+                    self.bump("fault.F1d_trap_call_returned");
+                }
+                self.log(format!(
+                    "#{} c{} trap_call variant {} on {} -> {} (terms {} -> {}, cache {} -> {})",
+                    self.step_idx, ci, variant, show(b), if r.is_err() { "panic" } else { "returned" },
+                    before.0, after.0, before.2, after.2
+                ));
+                if global {
+                    let again = guarded(|| smt::re_none());
+                    self.judge(Prop::C07, "c07.manager-usable-after-panic", again.is_ok(), || {
+                        "the thread-local manager is unusable after a caught caller panic".to_string()
+                    })?;
                 }
                 self.push_obs(ci, st.op.name(), Obs::Nothing);
                 Ok(())
